@@ -168,8 +168,12 @@ def run_shard(spec) -> Result:
         instr = handle(buf, addr, (pfx, f"{op:02X}", b2, "base"))
         if instr is None:
             continue
-        # nibble sweep over payload (only where the instruction has payload beyond the second byte)
         base_len = instr.length() - (1 if pfx is not None else 0)
+        # extreme payloads: every payload byte 00 / FF / 80 / 7F (immediates and displacements at the ends of their range)
+        if base_len > 2 and b2 in (0x00, 0x7F, 0x80, 0xFF):
+            for fill in (0x00, 0xFF, 0x80, 0x7F):
+                handle(enc.head_bytes(pfx, op, b2, bytes([fill]) * len(tail)), addr, (pfx, f"{op:02X}", b2, "fill", fill))
+        # nibble sweep over payload (only where the instruction has payload beyond the second byte)
         if base_len > 2 and (spec["tier"] == "thorough" and b2 % 16 == 0 or spec["tier"] == "quick" and b2 in (0x00, 0x24)):
             for hn in range(16):
                 t2 = bytes((x & 0x0F) | (hn << 4) for x in tail)
